@@ -1099,6 +1099,7 @@ class C15(Check):
             leaks = {KF_L_SUB} if k == len(bade) - 1 else set()
             C.append(self.mk("bade_%d" % k, ["cnew,0", EBAD(0, 0, k, src), E(0, 0, ("bin", "ADD", I(1), I(2))), "etype,0,0", "eval,0,0,0", "acc,0,i"], {"leaks": leaks, "lsub_n": 1}))
         C.extend(self.op_family())
+        C.extend(self.cross_store())
         # truncations: leak verdict only (the model has no parser)
         n = 0
         for pi, p in enumerate(TRUNC_PROGS):
@@ -1166,6 +1167,67 @@ class C15(Check):
                 C.append(self.mk("optype_%d_%s" % (gi, entry), ops, {"leaks": {KF_L_SUB} if nleak else set(), "lsub_n": nleak, "opfam": "%s/%s/%s" % (spell, form, entry)}))
             gi += 1
         self.op_meta = ops_
+        return C
+
+    def cross_store(self):
+        """Family `cross-store` (C15R5): a value travels between two contexts through the C API. Value kinds: every container
+        shape of CONTAINERS, scalars, typed nulls. Sources: a pointer from bloc_ctx_load_variable (`rstore`: the library
+        copies a variable's own cell), an item pointer of the loaded table / tuple (`rstore`: the library MOVES the element
+        out — the source element is null afterwards), the caller-owned result of bloc_drop_returned (`store`: moved).
+        Targets: another context, a clone of the source context, the original when the source is the clone, another
+        variable of the same context, the same variable. Then both sides are read again through fresh loads, each side is
+        overwritten and the other read again (a copy must not follow), a script reads the target; the contexts are freed
+        in both orders (a clone before its original). ASan watches every call, LeakSanitizer the end."""
+        C = []
+        lits = CONTAINERS + ["I:5", "S:6869", "B:1", "D:4004000000000000", "N:i0", "N:s0"]
+        A1, A2 = hx("A1"), hx("A2")
+        n = 0
+        for li, lit in enumerate(lits):
+            kind = "tab" if lit.startswith("T") else ("tup" if lit.startswith("U") else None)
+            for src in ("load", "item", "drop"):
+                if src == "item" and not kind:
+                    continue
+                for tgt in ("other", "clone", "rclone", "same2", "same"):
+                    if tgt == "same" and src != "load":
+                        continue
+                    for order in (0, 1):
+                        if order == 0 and tgt in ("clone", "rclone"):
+                            continue      # a clone is freed before its original (region of a recorded finding)
+                        if order == 1 and tgt in ("same", "same2"):
+                            continue
+                        ops = ["cnew,0", X(0, 0, [("let", "A1", L(lit))]), "exec,0", "find,0,0,%s" % A1]
+                        sc, ss = 0, 0
+                        if tgt == "other":
+                            ops += ["cnew,1", "reg,1,1,%s,0,0" % A2]
+                            tc, ts, tname = 1, 1, "A2"
+                        elif tgt == "clone":
+                            ops += ["cclone,0,1,2", "find,1,1,%s" % A1]
+                            tc, ts, tname = 1, 1, "A1"
+                        elif tgt == "rclone":
+                            ops += ["cclone,0,1,2", "find,1,1,%s" % A1]
+                            sc, ss, tc, ts, tname = 1, 1, 0, 0, "A1"
+                        elif tgt == "same2":
+                            ops += ["reg,0,1,%s,0,0" % A2]
+                            tc, ts, tname = 0, 1, "A2"
+                        else:
+                            tc, ts, tname = 0, 0, "A1"
+                        if src == "load":
+                            ops += ["load,%d,%d,1" % (sc, ss), "rstore,%d,%d,1" % (tc, ts), "vdump,1"]
+                        elif src == "item":
+                            ops += ["load,%d,%d,1" % (sc, ss), "%sitem,1,0,2" % kind, "rstore,%d,%d,2" % (tc, ts), "vdump,2", "vdump,1"]
+                        else:
+                            ops += [X(sc, 1, [("return", ("var", "A1"))]), "exec,1", "drop,%d,3" % sc, "rst,%d" % sc, "store,%d,%d,3" % (tc, ts), "vdump,3"]
+                        ops += ["load,%d,%d,4" % (tc, ts), "vdump,4", "load,%d,%d,5" % (sc, ss), "vdump,5", "acc,4,t", "tabitem,4,0,11", "tupitem,4,1,12",
+                                "vint,6,77", "store,%d,%d,6" % (sc, ss), "load,%d,%d,7" % (tc, ts), "vdump,7",
+                                "vint,8,88", "store,%d,%d,8" % (tc, ts), "load,%d,%d,9" % (sc, ss), "vdump,9",
+                                X(tc, 2, [("return", ("var", tname))]), "exec,2", "drop,%d,10" % tc, "vdump,10", "out,%d" % tc]
+                        if tgt in ("other", "clone", "rclone"):
+                            ops += ["cfree,0", "cfree,1"] if order == 0 else ["cfree,1", "cfree,0"]
+                        else:
+                            ops += ["cfree,0"]
+                        C.append(self.mk("xstore_%d_%s_%s_%d" % (li, src, tgt, order), ops, {"xstore": True}))
+                        n += 1
+        self.stats["cross_store_cases"] = n
         return C
 
     def gen_cases(self):
